@@ -181,7 +181,9 @@ func verifHarness_C08_fix(version int, shape int, keyed int, strlen int) {
 			copy(f2.Signature[:], verifNondetBytes(6))
 			f2.Checksum = frame.VerifSpecChecksumV2(1, compat, seq, sys, comp, spec.ID(), frame.VerifTruncate(full), spec.CRCExtra())
 		}
-		if keyed == 1 || keyed == 5 {
+		// keyed 6: a signed frame arrives at a node WITHOUT an outgoing key: the fixed frame still has to be a frame
+		// that can be written and that a next hop without a key accepts
+		if keyed == 1 || keyed == 5 || keyed == 6 {
 			f2.IncompatibilityFlag = 1
 			f2.SignatureLinkID = verifNondetU8()
 			f2.SignatureTimestamp = verifNondetU64()
